@@ -134,6 +134,10 @@ enum Eff {
     Neutral,
     CapOpen,
     CapClose,
+    /// `{% if false %}` .. `{% endif %}`: nothing in between is written (its `-` markers still act on
+    /// the texts they face; seeded change C08-7 glued the text of a branch not taken to what follows)
+    DeadOpen,
+    DeadClose,
 }
 
 #[derive(Clone, Copy, Debug)]
@@ -356,6 +360,7 @@ fn reference(els: &[El], rd: Reading) -> (String, usize) {
     let mut out = String::with_capacity(64);
     let mut cap = String::new();
     let mut capturing = false;
+    let mut dead = 0u32;
     for i in 0..n {
         let piece: &str = match *src[i].unwrap() {
             El::Text(_) | El::Raw { .. } => lit[i].unwrap(),
@@ -366,6 +371,8 @@ fn reference(els: &[El], rd: Reading) -> (String, usize) {
                     Eff::Neutral => {}
                     Eff::CapOpen => capturing = true,
                     Eff::CapClose => capturing = false,
+                    Eff::DeadOpen => dead += 1,
+                    Eff::DeadClose => dead = dead.saturating_sub(1),
                 }
                 ""
             }
@@ -376,6 +383,9 @@ fn reference(els: &[El], rd: Reading) -> (String, usize) {
                 ""
             }
         };
+        if dead > 0 {
+            continue;
+        }
         if capturing {
             cap.push_str(piece);
         } else {
@@ -400,8 +410,10 @@ enum Kind {
     SetBlock,
     /// only through add_raw_template + render (render_str refuses blocks)
     Block,
+    /// `{% if false %}` ... `{% endif %}`: the branch is not taken
+    DeadIf,
 }
-const PAIR_KINDS: [Kind; 6] = [Kind::If, Kind::For, Kind::Filter, Kind::ElseBranch, Kind::SetBlock, Kind::Block];
+const PAIR_KINDS: [Kind; 7] = [Kind::If, Kind::For, Kind::Filter, Kind::ElseBranch, Kind::SetBlock, Kind::Block, Kind::DeadIf];
 
 fn tag(l: bool, r: bool, words: &'static str) -> El {
     El::Tag { l, r, words, eff: Eff::Neutral }
@@ -418,6 +430,7 @@ fn open_els(k: Kind, l: bool, r: bool, out: &mut Vec<El>) {
         }
         Kind::SetBlock => out.push(El::Tag { l, r, words: "set cap", eff: Eff::CapOpen }),
         Kind::Block => out.push(tag(l, r, "block b")),
+        Kind::DeadIf => out.push(El::Tag { l, r, words: "if false", eff: Eff::DeadOpen }),
     }
 }
 
@@ -428,6 +441,7 @@ fn close_els(k: Kind, l: bool, r: bool, out: &mut Vec<El>) {
         Kind::Filter => out.push(tag(l, r, "endfilter")),
         Kind::SetBlock => out.push(El::Tag { l, r, words: "endset", eff: Eff::CapClose }),
         Kind::Block => out.push(tag(l, r, "endblock")),
+        Kind::DeadIf => out.push(El::Tag { l, r, words: "endif", eff: Eff::DeadClose }),
     }
 }
 
@@ -1136,8 +1150,8 @@ fn main() {
     );
 
     // ---------------------------------------------------------------- sequences
-    let alpha2 = seq_alphabet(&[Kind::If, Kind::For, Kind::Filter, Kind::ElseBranch]);
-    let alpha3 = seq_alphabet(&[Kind::If]);
+    let alpha2 = seq_alphabet(&[Kind::If, Kind::For, Kind::Filter, Kind::ElseBranch, Kind::DeadIf]);
+    let alpha3 = seq_alphabet(&[Kind::If, Kind::DeadIf]);
     run.extra(
         "sequence_pieces",
         json!({"k2": alpha2.len(), "k3": alpha3.len(), "k3_list": alpha3.iter().map(describe_sp).collect::<Vec<_>>()}),
